@@ -75,6 +75,21 @@ func genDoc(rt *rapid.T, hostile bool) *gen.GraphBP {
 			p.Names = []gen.Str{gen.Str(fmt.Sprintf("Nameless%d /Person/", i))}
 		}
 	}
+	// "people and places whose names collapse to the same file key": a pair made to collide,
+	// the place known from a person who may be living (so that it disappears in hide mode)
+	if hostile && len(g.People) > 0 && rapid.IntRange(0, 2).Draw(rt, "collidingPair") == 0 {
+		pair := rapid.SampledFrom([][2]string{{"John /Smith/", "John Smith"}, {"Sydney", "Sydney"}, {"/Paris/", "paris"}, {"李 /王/", "北京"}, {"Anne-Marie /O'Neil/", "Anne Marie, O Neil"},
+			{"New /York/", "New York"}, {"A  B", "a-b"}, {"Zoë /Zoë/", "Zo, Zo"}}).Draw(rt, "pair")
+		a := g.People[rapid.IntRange(0, len(g.People)-1).Draw(rt, "pairPerson")]
+		b := g.People[rapid.IntRange(0, len(g.People)-1).Draw(rt, "pairPlaceOf")]
+		a.Names = []gen.Str{gen.Str(pair[0])}
+		b.Events = append(b.Events, gen.EventBP{Tag: "RESI", Place: gen.Str(pair[1]), Date: "1890", HasDate: true})
+		if rapid.Bool().Draw(rt, "second") {
+			// a second person of the same name: the keys are numbered
+			g.People = append(g.People, &gen.PersonBP{ID: fmt.Sprintf("I%d", len(g.People)+1), Names: []gen.Str{gen.Str(pair[0])},
+				Events: []gen.EventBP{{Tag: "DEAT", Date: "1901", HasDate: true}}})
+		}
+	}
 	ns := rapid.IntRange(1, 3).Draw(rt, "sources")
 	g.Sources = nil
 	used := map[string]bool{}
@@ -506,7 +521,8 @@ func TestCheckHistory(t *testing.T) {
 		if rapid.IntRange(0, 2).Draw(rt, "sameDoc") == 0 {
 			c.SameDoc = true
 			c.BeforeVis = rapid.SampledFrom([]string{"show", "hide", "placeholder"}).Draw(rt, "beforeVis")
-			c.BeforeMask = rapid.SampledFrom([]int{63, 63, 1, 2, 62, 47}).Draw(rt, "beforeMask")
+			// (61 = everything but the places, 62 = everything but the individuals)
+			c.BeforeMask = rapid.SampledFrom([]int{63, 63, 61, 61, 1, 2, 62, 47}).Draw(rt, "beforeMask")
 		} else {
 			c.Before = genDoc(rt, true)
 		}
